@@ -341,6 +341,7 @@ func runC08(c *Config, r *Report) {
 	c08R5(ic, r)
 	c08R6(ic, r)
 	c08R8(ic, r)
+	c08R9(ic, r)
 	copiersAlwaysCopy(ic, r, "R08.7")
 	checkBinPkgOwnership(ic, r, "R08.4")
 	if c.Tier == "thorough" {
@@ -1293,5 +1294,170 @@ func c08R8(ic *IC, r *Report) {
 	}
 	if n == 0 {
 		r.Errorf("R08.8: the generator of the select statement (reflect.Select over a made vector of cases) was not found")
+	}
+}
+
+func init() {
+	ruleText["R08.9"] = "the function value called by a goroutine started from a run-time closure is fixed when the go statement executes: a reflect.Value obtained as the plain result of a value generator (it still designates the variable) is copied (the argument copier) in the block of the go statement before the goroutine starts, like the arguments"
+}
+
+// c08R9: found D89 (fn := f1; go fn(); fn = f2 ran f2: bf.Call read the variable in the new goroutine).
+func c08R9(ic *IC, r *Report) {
+	info := ic.Info
+	cp := copiers(ic)
+	isValueFn := func(t types.Type) bool {
+		if t == nil {
+			return false
+		}
+		sg, ok := t.Underlying().(*types.Signature)
+		return ok && sg.Params().Len() == 1 && sg.Results().Len() == 1 && isNamedPtr(sg.Params().At(0).Type(), "frame") && types.TypeString(sg.Results().At(0).Type(), nil) == "reflect.Value"
+	}
+	n := 0
+	for _, name := range sortedKeys(ic.F) {
+		fi := ic.F[name]
+		if fi.Decl.Body == nil {
+			continue
+		}
+		k := 0
+		for _, fl := range (&c02ctx{ic: ic}).closuresOf(fi) {
+			// reflect.Value locals defined from the plain result of a value generator
+			plain := map[types.Object]token.Pos{}
+			ast.Inspect(fl.Body, func(m ast.Node) bool {
+				as, ok := m.(*ast.AssignStmt)
+				if !ok || len(as.Lhs) != len(as.Rhs) {
+					return true
+				}
+				for i, rhs := range as.Rhs {
+					c, ok := unparen(rhs).(*ast.CallExpr)
+					if !ok {
+						continue
+					}
+					if fid := identOf(c.Fun); fid != nil {
+						if _, isFunc := info.ObjectOf(fid).(*types.Func); !isFunc && isValueFn(info.TypeOf(fid)) {
+							if lid := identOf(as.Lhs[i]); lid != nil {
+								plain[info.ObjectOf(lid)] = as.Pos()
+							}
+						}
+					}
+				}
+				return true
+			})
+			// local function literals: callf := func(...) { ... bf.Call ... }
+			litUses := map[types.Object]map[types.Object]bool{}
+			ast.Inspect(fl.Body, func(m ast.Node) bool {
+				as, ok := m.(*ast.AssignStmt)
+				if !ok || len(as.Lhs) != 1 || len(as.Rhs) != 1 {
+					return true
+				}
+				lit, ok := unparen(as.Rhs[0]).(*ast.FuncLit)
+				if !ok {
+					return true
+				}
+				lid := identOf(as.Lhs[0])
+				if lid == nil {
+					return true
+				}
+				obj := info.ObjectOf(lid)
+				ast.Inspect(lit.Body, func(q ast.Node) bool {
+					if id, ok := q.(*ast.Ident); ok {
+						if _, isPlain := plain[info.ObjectOf(id)]; isPlain {
+							if litUses[obj] == nil {
+								litUses[obj] = map[types.Object]bool{}
+							}
+							litUses[obj][info.ObjectOf(id)] = true
+						}
+					}
+					return true
+				})
+				return true
+			})
+			ast.Inspect(fl.Body, func(m ast.Node) bool {
+				gs, ok := m.(*ast.GoStmt)
+				if !ok {
+					return true
+				}
+				used := map[types.Object]bool{}
+				ast.Inspect(gs.Call, func(q ast.Node) bool {
+					if id, ok := q.(*ast.Ident); ok {
+						o := info.ObjectOf(id)
+						if _, isPlain := plain[o]; isPlain {
+							used[o] = true
+						}
+						for v := range litUses[o] {
+							used[v] = true
+						}
+					}
+					return true
+				})
+				// a plain generator result handed directly to the function the goroutine runs
+				for _, a := range gs.Call.Args {
+					c, ok := unparen(a).(*ast.CallExpr)
+					if !ok {
+						continue
+					}
+					if fid := identOf(c.Fun); fid != nil {
+						if _, isFunc := info.ObjectOf(fid).(*types.Func); !isFunc && isValueFn(info.TypeOf(fid)) {
+							n++
+							k++
+							r.Fail("R08.9", fmt.Sprintf("%s/go#%d/function-value-copied:%s", name, k, types.ExprString(a)), ic.pos(gs.Pos()),
+								name+" starts a goroutine on "+types.ExprString(gs.Call)+": the argument "+types.ExprString(a)+" is the plain result of a value generator (it still designates the variable), which the new goroutine reads when it gets to run: go host.F(); host.F = other can run other")
+						}
+					}
+				}
+				if len(used) == 0 {
+					return true
+				}
+				// the statement list holding the go statement
+				path := enclosingPath(fl.Body, gs)
+				var list []ast.Stmt
+				for i := len(path) - 1; i >= 0; i-- {
+					if b, ok := path[i].(*ast.BlockStmt); ok {
+						list = b.List
+						break
+					}
+				}
+				for v := range used {
+					n++
+					k++
+					copied := false
+					for _, s := range list {
+						if s.Pos() >= gs.Pos() {
+							break
+						}
+						as, ok := s.(*ast.AssignStmt)
+						if !ok || len(as.Lhs) != 1 || len(as.Rhs) != 1 {
+							continue
+						}
+						if lid := identOf(as.Lhs[0]); lid == nil || info.ObjectOf(lid) != v {
+							continue
+						}
+						if c, ok := unparen(as.Rhs[0]).(*ast.CallExpr); ok {
+							if f, ok := calleeOf(info, c).(*types.Func); ok && cp[f] {
+								copied = true
+							}
+						}
+						// an inline copy: c := reflect.New(T).Elem(); c.Set(v); v = c
+						if cid := identOf(as.Rhs[0]); cid != nil {
+							cobj := info.ObjectOf(cid)
+							for _, s2 := range list {
+								if as2, ok := s2.(*ast.AssignStmt); ok && len(as2.Lhs) == 1 && len(as2.Rhs) == 1 && s2.Pos() < as.Pos() {
+									if l2 := identOf(as2.Lhs[0]); l2 != nil && info.ObjectOf(l2) == cobj {
+										if c2, ok := unparen(as2.Rhs[0]).(*ast.CallExpr); ok && isCallTo(info, c2, "reflect.Value.Elem") && len(callsIn(info, c2, true, "reflect.New")) > 0 {
+											copied = true
+										}
+									}
+								}
+							}
+						}
+					}
+					r.Check(copied, "R08.9", fmt.Sprintf("%s/go#%d/function-value-copied:%s", name, k, v.Name()), ic.pos(gs.Pos()), "the called value is copied before the goroutine starts",
+						name+" starts a goroutine that calls through "+v.Name()+", the plain result of a value generator (defined at "+ic.pos(plain[v])+"): the new goroutine reads the variable when it gets to run, so fn := f1; go fn(); fn = f2 can run f2 (and races with the assignment)")
+				}
+				return true
+			})
+		}
+	}
+	if n == 0 {
+		r.Errorf("R08.9: no goroutine calling through the result of a value generator found (the compiled-function branch of call is expected)")
 	}
 }
